@@ -91,13 +91,23 @@ def blob_table(ops):
     return '[' + '; '.join('(%s, 0)' % z(op['blob']) for op in ops if op['k'] == 'add_fp' and op['size'] == 0) + ']'
 
 
-def render_case(cfg, ops, outs, view):
+def render_case(cfg, ops, outs, view, reopen_points=()):
+    """Coq syscase; a `Reopen empties base` spec op (outcome ok) is inserted before every op index in
+    reopen_points.  Outcome disagreement codes 1000+i then index this extended list: see op_index()."""
     names = syslevel.Names()
     code = {'ok': 0, 'refused': 1}
+    empties = '[' + '; '.join(z(op['blob']) for op in ops if op['k'] == 'add_fp' and op['size'] == 0) + ']'
+    cops, couts = [], []
+    gen = 0
+    for i, op in enumerate(ops):
+        if i in reopen_points:
+            gen += 1
+            cops.append('Reopen %s %s' % (empties, z(-1000000 * gen)))
+            couts.append('0')
+        cops.append(syslevel.coq_op(op, names, cfg))
+        couts.append(str(code.get(outs[i], 2)))
     return ('{| y_ops := [%s]; y_outcomes := [%s]; y_view := %s; y_tbl := %s; y_start := empty_fs |}'
-            % ('; '.join(syslevel.coq_op(op, names, cfg) for op in ops),
-               '; '.join(str(code.get(o, 2)) for o in outs),
-               syslevel.coq_view(view, names), blob_table(ops)))
+            % ('; '.join(cops), '; '.join(couts), syslevel.coq_view(view, names), blob_table(ops)))
 
 
 def coq_results(case_texts, prefix='sys'):
@@ -134,7 +144,7 @@ def shrink_against_spec(cfg, ops, sizes, reopen_points, kind, prefix='shr'):
             run = execute(cfg, cand, sizes, crp)
             if run.fail is not None:
                 continue
-            cands.append((cand, crp, render_case(cfg, cand, run.outs, run.view)))
+            cands.append((cand, crp, render_case(cfg, cand, run.outs, run.view, crp)))
         if not cands:
             if chunk == 1:
                 break
@@ -215,7 +225,7 @@ def disagreement(cfg, ops, sizes, rp):
     run = execute(cfg, ops, sizes, rp)
     if run.fail is not None:
         return ('fail', run.fail[0], run.fail[1].split(':')[0])
-    s, outs = pyspec.run(ops)
+    s, outs = pyspec.run(ops, rp)
     for i, (a, b) in enumerate(zip(run.outs, outs)):
         if a != b:
             return ('outcome', ops[i]['k'], a, ops[i].get('why', 'valid'), i == len(ops) - 1)
@@ -273,7 +283,7 @@ def minimize(cfg, ops, sizes, rp, want=None):
         # cut the history at the first edit whose outcome differs; that edit stays last
         from harness import pyspec
         run = execute(cfg, cur, sizes, rp)
-        s, outs = pyspec.run(cur)
+        s, outs = pyspec.run(cur, rp)
         for i, (a, b) in enumerate(zip(run.outs, outs)):
             if a != b:
                 cur = cur[:i + 1]
